@@ -16,7 +16,7 @@ KNOWN_MODULES = {"queue", "np", "numpy", "time", "warnings", "textwrap", "thread
                  "gzip", "io", "gym", "Path"}
 BUILTIN_EXC = {"ValueError", "TypeError", "KeyError", "IndexError", "AttributeError", "RuntimeError",
                "NotImplementedError", "AssertionError", "ZeroDivisionError", "Exception", "BaseException",
-               "RuntimeWarning", "LinAlgError", "StopIteration"}
+               "RuntimeWarning", "LinAlgError", "StopIteration", "OperationalError", "DatabaseError", "Error"}
 
 
 class GhostNS:
